@@ -203,6 +203,18 @@ def run(ctx):
         ctx.check('C19.EF2', ok, f3.name, 'dry_run:may-be-cleared', f3.where(e3),
                   'BuildConfig::dry_run is only ever set (`= true`, `|=`, or a store of a value known true there): `%s`' % (e3.get('src') or '')[:60])
     ctx.check('C19.EF2', nset >= 1, 'BuildConfig::dry_run', 'dry_run:writers', 'src/ninja.cc', '%d store(s) of the dry-run flag' % nset)
+    # a dry run looks at the same logs as a real one: where they are (build_dir_, from the manifest's `builddir`) is
+    # established whether or not this is a dry run - only the creation of the directory is skipped
+    bw = [(f2, e2) for f2, e2, kind, rhs in field_writes(prog, 'NinjaMain::build_dir_') if not e2.get('init')]
+    ctx.check('C19.EF2', len(bw) >= 1, 'NinjaMain', 'build_dir_:never-set', 'src/ninja.cc', 'NinjaMain::build_dir_ is set from the manifest')
+    for f2, e2 in bw:
+        guarded(ctx, 'C19.EF2', f2, e2, lambda a: mentions_field(a, 'BuildConfig::dry_run'), None,
+                'the location of the logs does not depend on -n', construct='build_dir_:depends-on-dry-run', forbidden=True)
+        if not mentions_call(e2.get('r'), 'BindingEnv::LookupVariable'):
+            continue            # a tool's own --builddir option
+        r2 = f2.find_path(None, lambda x: x['k'] == 'ret' and const_value(x.get('e')) != 0, from_succ=f2.entry, is_blocker=lambda x: x is e2)
+        ctx.check('C19.EF2', r2 is None, f2.name, 'build_dir_:not-set-on-every-path', f2.where(e2),
+                  '%s reports success only after it has set build_dir_' % f2.name, witness=None if r2 is None else {'blocks': r2[0]})
     ctx.floor('C19.EF2', 16)
 
     # ---- O1: dependency order of -t commands ------------------------------------------------------
